@@ -8,6 +8,13 @@ the loaded module proxy `os` / `shutil` / `subprocess` objects whose makedirs / 
 check_call raise at the commanded point; pipeline-side crashes by telling the fake to exit
 non-zero after k publications.  The operator removes a directory when (and only when) the
 script's error message names it, and reruns.
+
+Every run is a sequence of INVOCATIONS of main(): the harness never decides how many calls of run_next_* an invocation
+makes - the script's own while-loop does.  Before each invocation the operator model (Runner.op_screen, the same function as
+Model/Orchestrate.op_screen) picks the --screen file from what the output directory shows: retrospective always screens/0/exp.h5,
+prospective screens/<q>/exp.h5 with q = completed steps // batch size (a new screen per batch, the same one for a rerun
+inside a batch).  The log compared with the model is [[operator screen, [one item per call], end] per invocation]; a launch
+item shows which operator screen its command line names.
 """
 import importlib.machinery
 import importlib.util
@@ -752,7 +759,7 @@ def gen(rng, tier):
         cr = [(rng.randint(0, 2), rng.randint(0, 11), rng.choice(orders_for(m))) for _ in range(rng.randint(3, 5))]
         yield dict(kind="run", mode=m, bs=bs, n=n, sched=mk_sched(T, cr), spawn=False)
     # prospective sessions over three batches (the operator hands over three different screens), one to three crashes anywhere
-    for _ in range(60 if quick else 800):
+    for _ in range(40 if quick else 800):
         bs = rng.choice([1, 2, 2, 3, 3, 4])
         n = rng.randint(max(bs, 3), 6)
         T = 3 * bs
